@@ -109,7 +109,16 @@ func c03Sequential(c *vlib.Ctx) {
 		}
 		for s := 0; s < seqs; s++ {
 			r := vlib.Derive(c.Seed, "C03seq", be, s)
-			g := storecheck.GenCfg{NIDs: r.Range(3, 10), Routes: stdRoutes[:2], Targets: stdTargets[:2], Weights: w, Churn: churn}
+			ww := w
+			if be == "sqlite" {
+				// the database is opened again (restart with or without a graceful close)
+				// while consumers hold leases
+				ww = map[storecheck.Kind]int{storecheck.KReopen: 4}
+				for k, v := range w {
+					ww[k] = v
+				}
+			}
+			g := storecheck.GenCfg{NIDs: r.Range(3, 10), Routes: stdRoutes[:2], Targets: stdTargets[:2], Weights: ww, Churn: churn}
 			storecheck.RunSequence(c, r, storecheck.RunCfg{Backends: []string{be}, Gen: g, Steps: r.Range(80, 160),
 				Label: fmt.Sprintf("C03/seq/%s/seq%d", be, s), Props: map[string]bool{"C03": true}})
 		}
